@@ -44,11 +44,11 @@ func Verif_C12_InProc() {
 			zv.Assert(rerr == io.EOF, "stream-ends-cleanly")
 		}
 	}
-	n := len(hooks.ran)
+	n := len(hooks.Ran)
 	zv.Assert(n <= 1, "at-most-one-handler-runs")
 	if n == 1 {
 		zv.Reach("handler-ran")
-		tag := hooks.ran[0]
+		tag := hooks.Ran[0]
 		zv.Observe("ran", name, tag, viaStream)
 		zv.Assert(err == nil, "matched-call-succeeds")
 		// the name is exactly the handler's, and the entry point matches its kind
